@@ -126,6 +126,9 @@ class Gen:
                 T = (k, fs)
             elif k in ('seqof', 'setof'):
                 T = (k, self.ty(depth - 1, top=False))
+            elif k == 'choice' and self.any_ok and self.untagged_choice_ok and r.random() < 0.12:
+                # an untagged ANY as the only alternative: the ANY must come back with its own header octets
+                T = ('choice', [('any',)])
             elif k == 'choice':
                 n = r.randint(1, 3)
                 alts, used = [], set()
